@@ -297,6 +297,19 @@ func (ll *LevelList) NewWithChangeSet(cs *ChangeSet) *LevelList {
 	return nextLL
 }
 
+// IncludesTable reports whether a table stored at the given URI is part of this
+// level list.
+func (ll *LevelList) IncludesTable(uri string) bool {
+	for _, level := range ll.levels {
+		for t := range level.AllTables() {
+			if t.URI() == uri {
+				return true
+			}
+		}
+	}
+	return false
+}
+
 func (ll *LevelList) Diagnostics() string {
 	var sb strings.Builder
 	sb.WriteString(fmt.Sprintf("level count: %d", len(ll.levels)))
